@@ -263,7 +263,8 @@ class RefTarget:
     def route(self, service, segs, data, transport, conn, entry):
         for rule in self.forced:
             w = rule.get("when", {})
-            if "service" in w and w["service"] == service and w.get("transport", transport) == transport:
+            if "service" in w and w["service"] == service and w.get("transport", transport) == transport and \
+                    ("class" not in w or (segs and segs[0][:2] == ("class", w["class"]))):
                 if rule.get("once"):
                     self.forced.remove(rule)
                 return rule["status"], rule.get("ext", []), rule.get("data", b"")
@@ -470,6 +471,13 @@ class RefPLC(RefTarget):
         for t in self.project.data["tags"]:
             if t.get("scope") is None:
                 self.by_instance[t["instance"]] = t
+
+    def load_project(self, project, memory):
+        """a program download while clients are connected: the controller now runs another project"""
+        self.project = project if isinstance(project, Project) else Project(project)
+        self.memory = {k: bytearray(v) for k, v in memory.items()}
+        self.by_instance = {t["instance"]: t for t in self.project.data["tags"] if t.get("scope") is None}
+        self.read_xfers, self.write_xfers, self.empty_served = {}, [], set()
 
     # -- memory ---------------------------------------------------------------------------------
     @staticmethod
